@@ -29,7 +29,7 @@ ASSUMPTIONS = ['grammars whose reference Kleene iteration needs more than 400 st
 
 def plan(prop, tier):
     if tier == 'quick':
-        return {'runs': 1600, 'cap': 60.0, 'det_runs': 20}
+        return {'runs': 1600, 'cap': 60.0, 'det_runs': 20, 'legs': [{'hashseed': h} for h in (0, 1, 2, 3)]}
     return {'cap': 120.0, 'budget_s': 900, 'legs': [{'hashseed': h} for h in (0, 1, 2, 3)]}
 
 
